@@ -299,7 +299,8 @@ func (parameter *Parameter) SerializationMethod() (*SerializationMethod, error) 
 		if style == "" {
 			style = SerializationForm
 		}
-		explode := true
+		// explode defaults to true for style form only (deepObject is only defined exploded)
+		explode := style != SerializationSpaceDelimited && style != SerializationPipeDelimited
 		if parameter.Explode != nil {
 			explode = *parameter.Explode
 		}
